@@ -40,6 +40,9 @@ Ltac lampos :=
 Definition hy_scale (lam : R) (e : hy_env) : hy_env :=
   {| hy_TMaxHydro := lam * hy_TMaxHydro e;
      hy_TMinHydro := lam * hy_TMinHydro e;
+     hy_Tnucl := lam * hy_Tnucl e;
+     th_dpLowT := fun T => lam ^ 3 * th_dpLowT e (T / lam);
+     th_deLowT := fun T => lam ^ 3 * th_deLowT e (T / lam);
      th_pHighT := fun T => lam ^ 4 * th_pHighT e (T / lam);
      th_pLowT := fun T => lam ^ 4 * th_pLowT e (T / lam);
      th_eHighT := fun T => lam ^ 4 * th_eHighT e (T / lam);
@@ -75,6 +78,25 @@ Proof.
     [|exfalso; apply N; rewrite He; reflexivity].
   destruct (Req_EM_T (th_eHighT e Tp) (th_eLowT e Tm)) as [_|N]; [|contradiction].
   cbn [negb]. ring.
+Qed.
+
+(** Jouguet point: the function whose root findJouguetVelocity looks for (numerator of
+    d(v+^2)/dT-) is homogeneous of degree 15, so its roots are covariant: T-_J ~ lam *)
+Lemma vpDerivNum_scaling lam e tm : 0 < lam ->
+  hy_vpDerivNum (hy_scale lam e) (lam * tm) = lam ^ 15 * hy_vpDerivNum e tm.
+Proof.
+  intro Hl. unfold hy_vpDerivNum, hy_scale.
+  cbn [th_pHighT th_pLowT th_eHighT th_eLowT th_dpLowT th_deLowT hy_Tnucl].
+  rewrite !unscale by exact Hl. ring.
+Qed.
+
+Lemma jouguet_root_covariant lam e tm : 0 < lam ->
+  (hy_vpDerivNum (hy_scale lam e) (lam * tm) = 0 <-> hy_vpDerivNum e tm = 0).
+Proof.
+  intro Hl. rewrite vpDerivNum_scaling by exact Hl.
+  assert (H : lam ^ 15 <> 0) by (apply Rgt_not_eq, pow_lt; exact Hl).
+  split; intro E; [|rewrite E; ring].
+  apply Rmult_integral in E. destruct E as [E|E]; [contradiction|exact E].
 Qed.
 
 (** self-similar fluid equations: d xi / dv is dimensionless, dT/dv scales like T *)
@@ -703,6 +725,16 @@ Theorem junction_degenerate_branch_scales_like_pressure : forall lam e Tp Tm,
 Proof. exact vpvm_degenerate_branch_scales. Qed.
 Print Assumptions junction_degenerate_branch_scales_like_pressure.
 
+(** with [junction_velocities_invariant] (vJ^2 = v+v- * v+/v- at the root): the Jouguet
+    temperature scales like lam and the Jouguet velocity is invariant *)
+Theorem jouguet_condition_covariant : forall lam e tm, 0 < lam ->
+  hy_vpDerivNum (hy_scale lam e) (lam * tm) = lam ^ 15 * hy_vpDerivNum e tm /\
+  (hy_vpDerivNum (hy_scale lam e) (lam * tm) = 0 <-> hy_vpDerivNum e tm = 0).
+Proof.
+  intros lam e tm Hl. split; [apply vpDerivNum_scaling | apply jouguet_root_covariant]; exact Hl.
+Qed.
+Print Assumptions jouguet_condition_covariant.
+
 Theorem shock_equations_covariant : forall lam e v xi T b, 0 < lam ->
   hy_shockDE_shock (hy_scale lam e) v (xi, lam * T) b =
     (fst (hy_shockDE_shock e v (xi, T) b), lam * snd (hy_shockDE_shock e v (xi, T) b)) /\
@@ -815,7 +847,14 @@ Local Open Scope string_scope.
     - (p+ - p-) * 1e50: sentinel when e+ = e- exactly (see
       junction_degenerate_branch_scales_like_pressure);
     - minimize(tol=tol): scipy's gradient tolerance on Veff(phi) in findLocalMinimum;
-    - allclose(atol=1e-05): "are the two phases the same point" in validatePhaseInput. *)
+    - allclose(atol=1e-05): "are the two phases the same point" in validatePhaseInput;
+    - cmp? 1e-06 ~ np.sum(sol.fun ** 2): residual of the matching equations in mapped
+      variables (dimension unknown to the naming table: recorded fail-closed, kind "cmp?");
+    - scale=1.0 defaults of helpers.derivative/gradient/hessian (pseudo-dimension 1000 = "the
+      variable differentiated with respect to"): every caller in WallGo passes scale= (a call
+      without it is a site of kind "noscale").
+    Kinds ending in "?" are places where a float literal or an absolute solver keyword meets
+    an expression whose dimension the naming table cannot tell (fail closed). *)
 Definition reviewed_sites : list site := [
   mk_site "equationOfMotion.py" "EOM.solveWall" "assign" "pressAbsErrTol = 1e-08" (Some 4%Z) 1;
   mk_site "equationOfMotion.py" "EOM.findPlasmaProfilePoint" "cmp" "1e-10" (Some 1%Z) 1;
@@ -823,10 +862,14 @@ Definition reviewed_sites : list site := [
   mk_site "hydrodynamics.py" "Hydrodynamics.findJouguetVelocity" "xtol" "root_scalar(xtol=self.atol)" (Some 1%Z) 2;
   mk_site "hydrodynamics.py" "Hydrodynamics.vpvmAndvpovm" "branch" "(pHighT - pLowT) / (eHighT - eLowT)" (Some 4%Z) 1;
   mk_site "hydrodynamics.py" "Hydrodynamics.matchDeton" "xtol" "root_scalar(xtol=self.atol)" (Some 1%Z) 1;
+  mk_site "hydrodynamics.py" "Hydrodynamics.matchDeflagOrHyb" "cmp?" "1e-06 ~ np.sum(sol.fun ** 2)" None 1;
   mk_site "hydrodynamics.py" "Hydrodynamics.solveHydroShock" "xtol" "root_scalar(xtol=self.atol)" (Some 1%Z) 2;
   mk_site "hydrodynamics.py" "Hydrodynamics.strongestShock" "xtol" "root_scalar(xtol=self.atol)" (Some 1%Z) 1;
   mk_site "effectivePotential.py" "EffectivePotential.findLocalMinimum" "xtol" "minimize(tol=tol)" (Some 1%Z) 1;
-  mk_site "manager.py" "WallGoManager.validatePhaseInput" "xtol" "allclose(atol=1e-05)" (Some 1%Z) 1
+  mk_site "manager.py" "WallGoManager.validatePhaseInput" "xtol" "allclose(atol=1e-05)" (Some 1%Z) 1;
+  mk_site "helpers.py" "derivative" "default" "scale=1.0" (Some 1000%Z) 1;
+  mk_site "helpers.py" "gradient" "default" "scale=1.0" (Some 1000%Z) 1;
+  mk_site "helpers.py" "hessian" "default" "scale=1.0" (Some 1000%Z) 1
 ].
 
 (** the sites found in the CURRENT sources are exactly the reviewed ones: a new absolute
@@ -839,8 +882,8 @@ Print Assumptions tolerance_sites_are_the_reviewed_ones.
 (** every reviewed site concerns a quantity of non-zero dimension, so by
     [absolute_tolerance_is_not_covariant] none of them is covariant *)
 Theorem reviewed_sites_are_dimensionful :
-  Forall (fun s => match s_dim s with Some d => d <> 0%Z | None => False end) reviewed_sites.
-Proof. repeat constructor; discriminate. Qed.
+  Forall (fun s => match s_dim s with Some d => d <> 0%Z | None => True end) reviewed_sites.
+Proof. repeat constructor; try discriminate. Qed.
 Print Assumptions reviewed_sites_are_dimensionful.
 
 (** Every input of every entry point of WallGoManager (setupThermodynamicsHydrodynamics:
@@ -859,3 +902,13 @@ Theorem manager_inputs_are_recorded : (List.length flows >= 10)%nat /\
                      String.eqb (f_param f) "veffDerivativeScales")%bool) flows = true.
 Proof. split; [vm_compute; repeat constructor | vm_compute; reflexivity]. Qed.
 Print Assumptions manager_inputs_are_recorded.
+
+(** State that the wall-solving entry points (setupWallSolver, solveWall, solveWallDetonation,
+    wallSpeedLTE, buildGrid, buildEOM and what they call) store on the manager and read back
+    must be rebuilt by setupThermodynamicsHydrodynamics (or a method it calls): a cache that
+    survives a new set-up keeps the thermodynamics, Tnucl and units of the previous one.
+    [solver_state] is extracted from the AST of manager.py on this run (today: empty). *)
+Theorem solver_state_is_rebuilt_by_setup :
+  Forall (fun a => implb (c_read a) (c_rebuilt a) = true) solver_state.
+Proof. repeat constructor. Qed.
+Print Assumptions solver_state_is_rebuilt_by_setup.
